@@ -222,6 +222,14 @@ func runProperty(p *Property, tier string, seed int64, verifDir string, only int
 	c := newCtx(p, tier, seed)
 	c.Verbose = verbose
 	n := p.N(tier)
+	if only < 0 {
+		// witnesses of earlier runs of this property are stale
+		if old, err := filepath.Glob(filepath.Join(verifDir, "replays", p.ID+"-*.json")); err == nil {
+			for _, f := range old {
+				_ = os.Remove(f)
+			}
+		}
+	}
 	if p.Setup != nil {
 		p.Setup(c)
 	}
@@ -373,13 +381,17 @@ func (c *Ctx) writeEvidence(verifDir string, n int, wall float64, nviol int) {
 		known[k] = v
 	}
 	cov["known_finding_occurrences"] = known
+	assume := p.Assume
+	if assume == nil {
+		assume = []string{}
+	}
 	ev := map[string]any{
 		"property_id": p.ID,
 		"tier":        c.Tier,
 		"seed":        c.Seed,
 		"level":       p.Level,
 		"coverage":    cov,
-		"assumptions": p.Assume,
+		"assumptions": assume,
 		"wall_s":      wall,
 		"violations":  nviol,
 	}
